@@ -70,7 +70,10 @@ def gen_sequence(rng, idx):
             ops.append(dict(op="call", x=x, out="ok", y=y, sd=sd, record=rng.random() < 0.8))
         if ops[-1]["op"] != "finalize":
             pts.append(x)
-    return dict(D=D, level=level, cache=cache, transform=transform), ops
+    # how the caller hands points over: a fresh float array per call, ONE working buffer rewritten in place between calls (what
+    # an optimiser loop does), or integer-typed arrays when every coordinate happens to be integral
+    arr = rng.choice(["fresh", "fresh", "fresh", "inplace", "inplace", "int"])
+    return dict(D=D, level=level, cache=cache, transform=transform, arr=arr), ops
 
 
 def make_transformer(D):
@@ -134,6 +137,9 @@ def run_real(cfg, ops):
     D, level = cfg["D"], cfg["level"]
     he = level == 2
     vt = make_transformer(D) if cfg["transform"] else None
+    vt_oracle = make_transformer(D) if cfg["transform"] else None     # the oracle never shares state with the object under test
+    arr = cfg.get("arr", "fresh")
+    buf = np.zeros(D)
     cur = {}
 
     def fun(xo):
@@ -155,7 +161,12 @@ def run_real(cfg, ops):
             res = None
         else:
             x = np.array(o["x"], dtype=float)
-            xo = (vt.inverse_transf(x.reshape(1, -1))[0] if vt is not None else x).tolist()
+            xo = (vt_oracle.inverse_transf(x.copy().reshape(1, -1))[0] if vt is not None else x).tolist()
+            if arr == "inplace":
+                buf[:] = x
+                x = buf
+            elif arr == "int" and all(float(v).is_integer() for v in o["x"]):
+                x = np.array([int(v) for v in o["x"]], dtype=np.int64)
             try:
                 if o["op"] == "call":
                     if o["out"] == "bad":
